@@ -5,7 +5,6 @@ import (
 	"encoding/json"
 	"fmt"
 	"runtime"
-	"runtime/debug"
 	"slices"
 	"sort"
 	"strings"
@@ -503,7 +502,6 @@ func c23Permute(u []c23Unit, seed int64) {
 func TestVerifC23(t *testing.T) {
 	r := ev.Start(t, "C23")
 	defer r.Finish()
-	defer debug.SetGCPercent(debug.SetGCPercent(200))
 	th := r.Thorough()
 
 	menu := c23Menu()
